@@ -87,7 +87,45 @@ def fam_C01(rng, tier):
                      ns=[1024, 2 ** 40], kinds=['u8', 'u64', 'u256', 'h256', 'var'],
                      weights={'read': 24, 'root': 2})
     cs += exhaustive_reads(rng, tier)
+    cs += motif_histories(rng, tier)
     return cs
+
+
+def motif_histories(rng, tier):
+    """histories that start from the pair motifs of the rebase family (zero suffixes, prefixes,
+    shared/hashed states) and continue with reads, pops, pushes and flushes on both handles."""
+    out = []
+    for cfg in pick_configs(rng, scale(tier, 60, 300)):
+        kind, N, m = cfg
+        for _ in range(2):
+            r = sub(rng)
+            lines = [cfg_line(cfg)]
+            motif = rebase_pair(r, kind, N, lines)
+            lines += ['root 0' if r.random() < 0.7 else 'len 0', 'root 1' if r.random() < 0.7 else 'len 1']
+            lines += [r.choice(['rebase 0 1', 'rebase 1 0', 'rebase 0 1', 'intra 0'])]
+            pf = PF[kind] or 2
+            for _ in range(10):
+                h = r.choice([0, 1])
+                c = r.randrange(8)
+                if c == 0:
+                    lines.append('pop %d %d' % (h, r.choice([0, 1, 2, 4, 8, 16, pf, 2 * pf, 3])))
+                elif c == 1:
+                    lines.append('push %d %s' % (h, val(r, kind)))
+                elif c == 2:
+                    lines.append('getmut %d %d %s' % (h, r.randrange(0, 8), val(r, kind)))
+                elif c == 3:
+                    lines.append('apply %d' % h)
+                elif c == 4:
+                    lines.append('rebase %d %d' % (h, 1 - h))
+                elif c == 5:
+                    lines += ['apply %d' % h, 'root %d' % h]
+                elif c == 6:
+                    lines.append('iterfrom %d %d' % (h, r.randrange(0, 6)))
+                else:
+                    lines.append('levels %d %d' % (h, r.choice([0, 1, 2, 4, 8, pf])))
+                lines += ['len %d' % h, 'tovec %d' % h, 'wf %d' % h]
+            out.append(Case(lines, 'history-from-' + motif, ('wellformed',), {'cfg': cfg}))
+    return out
 
 
 def exhaustive_reads(rng, tier):
@@ -595,6 +633,45 @@ def fam_C09(rng, tier):
                 lines += ['len 0', 'tovec 0', 'len 9', 'tovec 9']
             lines += ['apply 0', 'apply 9', 'eq 0 9', 'root 0', 'root 9']
             out.append(Case(lines, 'intra-rebase', (), {'cfg': cfg}))
+    out += hash_valued(rng, tier)
+    return out
+
+
+def hash_valued(rng, tier):
+    """elements whose value equals the hash of an inner node elsewhere in the same tree (32-byte
+    kinds): a (depth, hash) key must not confuse a leaf-level chunk with a higher node."""
+    import hashlib
+    out = []
+    for kind in ('h256', 'u256'):
+        for N in (8, 9, 16, 17, 32, 33):
+            for _ in range(scale(tier, 2, 6)):
+                r = sub(rng)
+                m = r.choice(MAPS)
+                n = r.choice([8, min(N, 16), N if N in (8, 16, 32) else 8])
+                xs = [bytes(r.randrange(256) for _ in range(32)) for _ in range(n)]
+                # overwrite some positions with hashes of aligned pairs / quads found elsewhere
+                def H(a, b):
+                    return hashlib.sha256(a + b).digest()
+                for _ in range(r.randint(1, 3)):
+                    i = 2 * r.randrange(n // 2)
+                    j = r.randrange(n)
+                    if j in (i, i + 1):
+                        continue
+                    xs[j] = H(xs[i], xs[i + 1])
+                if n >= 8 and r.random() < 0.7:
+                    a = r.choice([0, 4]) if n >= 8 else 0
+                    b = 4 - a
+                    xs[b] = H(xs[a], xs[a + 1]); xs[b + 1] = H(xs[a + 2], xs[a + 3])
+                hx = [x.hex() for x in xs]
+                k = 'vec' if (n == N and r.random() < 0.4) else 'list'
+                lines = [cfg_line((kind, N, m)), 'new 0 %s %s' % (k, ' '.join(hx)), 'clone 0 8', 'intra 0',
+                         'len 0', 'tovec 0', 'wf 0', 'eq 0 8', 'root 0', 'root 8',
+                         'new 9 %s %s' % (k, ' '.join(hx)), 'eq 0 9', 'root 9']
+                for i in range(n + 1):
+                    lines.append('get 0 %d' % i)
+                if k == 'list':
+                    lines += ['pop 0 4', 'pop 9 4', 'tovec 0', 'eq 0 9', 'root 0', 'root 9']
+                out.append(Case(lines, 'intra-hash-valued-elements', ('wellformed',), {'cfg': (kind, N, m)}))
     return out
 
 
@@ -958,7 +1035,7 @@ def fam_C17(rng, tier):
         pd = int_log(pf)
         r = sub(rng)
         lines = [cfg_line((kind, 8, 'btree'))]
-        for depth in [10, 20, 40, 48, 58, 63 - pd, 64 - pd, 64, 100]:
+        for depth in [10, 20, 40, 48, 58, 63 - pd, 64 - pd, 64, 100, 2 ** 32, 2 ** 63, 2 ** 64 - 1 - pd, min(2 ** 64 - 1, 2 ** 64 - pd), 2 ** 64 - 1]:
             k = r.randint(0, 70)
             xs = [val(r, kind) for _ in range(k)]
             lines.append('bnew 0 %d 0' % depth)
